@@ -162,6 +162,42 @@ def _shift_term(t, boff):
     return t
 
 
+def _ref_source(blk_stmts, local):
+    """if `local` is defined in these statements as `&[mut] P` (P a place without index projections): (P, statement index)"""
+    for i in range(len(blk_stmts) - 1, -1, -1):
+        s = blk_stmts[i]
+        if s["k"] == "assign" and not s["lhs"]["p"] and s["lhs"]["l"] == local:
+            rv = s["rv"]
+            if rv["k"] == "ref" and not any(e.get("k") == "index" for e in rv["p"]["p"]):
+                return rv["p"], i
+            return None, None
+    return None, None
+
+
+def _subst_deref(x, local, place):
+    """replace every place `(*local).rest` by `place.rest` (a by-reference parameter bound to a place of the caller)"""
+    if isinstance(x, dict):
+        if "l" in x and "p" in x and isinstance(x["p"], list) and x["l"] == local and x["p"] and x["p"][0].get("k") == "deref":
+            return {"l": place["l"], "p": copy.deepcopy(place["p"]) + [_subst_deref(e, local, place) for e in x["p"][1:]]}
+        return {k: _subst_deref(v, local, place) for k, v in x.items()}
+    if isinstance(x, list):
+        return [_subst_deref(v, local, place) for v in x]
+    return x
+
+
+def _uses_bare(x, local):
+    """is `local` used other than through a leading deref (passed on, compared, reborrowed whole ...)"""
+    if isinstance(x, dict):
+        if "l" in x and "p" in x and isinstance(x["p"], list) and x["l"] == local:
+            return not (x["p"] and x["p"][0].get("k") == "deref")
+        if x.get("k") in ("live", "dead") and x.get("l") == local:
+            return False
+        return any(_uses_bare(v, local) for v in x.values())
+    if isinstance(x, list):
+        return any(_uses_bare(v, local) for v in x)
+    return False
+
+
 def inline_call(caller_d, bi, callee_d):
     """splice callee_d into caller_d at the call terminating block bi (in place on caller_d)"""
     blk = caller_d["blocks"][bi]
@@ -169,14 +205,11 @@ def inline_call(caller_d, bi, callee_d):
     off = len(caller_d["locals"])
     boff = len(caller_d["blocks"])
     poff = len(caller_d.get("promoted", []))
-    caller_d["locals"] = caller_d["locals"] + copy.deepcopy(callee_d["locals"])
+    new_locals = copy.deepcopy(callee_d["locals"])
     if callee_d.get("promoted"):
         caller_d.setdefault("promoted", [])
         caller_d["promoted"] = caller_d["promoted"] + copy.deepcopy(callee_d["promoted"])
     sp = call.get("sp")
-    # parameters
-    for i, a in enumerate(call["args"]):
-        blk["stmts"].append({"k": "assign", "lhs": {"l": off + 1 + i, "p": []}, "rv": {"k": "use", "a": a}, "sp": sp})
     cont = call.get("t")
     dest = call["dest"]
     new_blocks = []
@@ -192,6 +225,31 @@ def inline_call(caller_d, bi, callee_d):
         else:
             _shift_term(t, boff)
         new_blocks.append(nb)
+    # parameters.  A parameter bound to `&[mut] P` (the usual way state is handed to an extracted helper) is replaced by P itself wherever
+    # the helper dereferences it, so that the spliced code reads and writes the caller's place directly, as it did before the extraction;
+    # a parameter bound to a plain copy of a caller variable loses its own debug name, so that it resolves to the caller's variable.
+    for i, a in enumerate(call["args"]):
+        pl = off + 1 + i
+        src = a.get("move") or a.get("copy")
+        done = False
+        if src is not None and not src["p"] and new_locals[1 + i]["ty"].startswith("&"):
+            place, _ = _ref_source(blk["stmts"], src["l"])
+            # `&mut *r` with r itself `&mut P` (two-phase borrows and reborrows): look through
+            for _depth in range(4):
+                if place is None or not (place["p"] and place["p"][0].get("k") == "deref"):
+                    break
+                inner, _ = _ref_source(blk["stmts"], place["l"])
+                if inner is None:
+                    break
+                place = {"l": inner["l"], "p": copy.deepcopy(inner["p"]) + place["p"][1:]}
+            if place is not None and not any(_uses_bare(nb, pl) for nb in new_blocks):
+                new_blocks = [_subst_deref(nb, pl, place) for nb in new_blocks]
+                done = True
+        if not done:
+            blk["stmts"].append({"k": "assign", "lhs": {"l": pl, "p": []}, "rv": {"k": "use", "a": a}, "sp": sp})
+            if src is not None and not src["p"]:
+                new_locals[1 + i].pop("name", None)
+    caller_d["locals"] = caller_d["locals"] + new_locals
     caller_d["blocks"] = caller_d["blocks"] + new_blocks
     blk["term"] = {"k": "goto", "t": boff}
     caller_d.setdefault("inlined", []).append({"callee": callee_d["key"], "ret": off, "dest": dest, "cont": cont, "first_block": boff, "blocks": len(new_blocks)})
